@@ -42,7 +42,8 @@ Edit(p, c) ==
     /\ act' = [op |-> "Edit", p |-> p, c |-> c]
     /\ UNCHANGED <<warm, last>>
 
-\* build(odb, dir): cfg = [state |-> "noop" | "real", jobs, big] ; walk / fresh are the orders the
+\* build(odb, dir): cfg = [state |-> "noop" | "real", sp |-> how the caller spelled the directory path: "plain" |
+\* "slash" (trailing separator) | "dslash" (two of them) - irrelevant to the result] ; walk / fresh are the orders the
 \* file system and the thread pool happened to produce
 Build(cfg, walk, fresh) ==
     /\ Tick /\ Files(ws) # {}
@@ -80,14 +81,14 @@ Next ==
     \/ \E p \in Paths, c \in Contents \cup {Absent} : Edit(p, c)
     \/ \E st \in {"noop", "real"} : \E walk \in Perms(Files(ws)) :
           \E fresh \in Perms(Files(ws) \ Hits(ws, IF st = "real" THEN warm ELSE [p \in Paths |-> Absent])) :
-              Build([state |-> st], walk, fresh)
+              \E sp \in {"plain", "slash", "dslash"} : Build([state |-> st, sp |-> sp], walk, fresh)
     \/ \E d \in SubDirs : Sub(d)
     \/ BuildOther
 
 \* behaviour generation: orders are not part of the operation-level behaviour
 NextAny ==
     \/ \E p \in Paths, c \in Contents \cup {Absent} : Edit(p, c)
-    \/ \E st \in {"noop", "real"} : BuildAny([state |-> st])
+    \/ \E st \in {"noop", "real"}, sp \in {"plain", "slash", "dslash"} : BuildAny([state |-> st, sp |-> sp])
     \/ \E d \in SubDirs : Sub(d)
     \/ BuildOther
 
